@@ -1041,3 +1041,45 @@ def c16_base_families(quick):
                         sk.decl.append("ASSUME(N%d < (1ul << 48));" % p[1])
             out.append(sk)
     return out
+
+
+# ---------------------------------------------------------------------------
+# C06 (query C): a line in the context of a program yields the code it yields alone
+
+CONTEXT_LINES = [
+    "lea rax, [rbx+rcx*2]", "mov byte [rdi+rax], 5", "vpaddd ymm1, ymm2, [r8+r9*4+0x10]", "jmp short 0x4", "push rbx",
+    "shl rax, 1", "movzx eax, byte [rcx]", "mov rax, 0x1122334455667788", "paddd xmm9, [rsp+r13*4]", "imul r9w, word [eax-0x80], 0x1234",
+    "jmp far dword [r12]", "setne byte [rbp]", "shld qword [rax], rcx, cl", "test qword [rax+rcx*2], 0x7fffffff",
+]
+
+
+def c06_context_families(quick, assemble_alone):
+    """assemble_alone(text) -> bytes or None (natively, current tree, identical under all 12 option combinations)"""
+    import copy
+    out = []
+    ctx = CONTEXT_LINES if not quick else CONTEXT_LINES[:8]
+    seeds = []
+    seeds += [s for s in c01_families(True) if s.name in ("c01.add.rr", "c01.push.r", "c01.pop.r", "c01.setne.r", "c01.shl.r_cl", "c01.ret", "c01.imul.r")]
+    seeds += [s for s in c02_families(True) if s.name in ("c02.mov.mr.b_s1_hex", "c02.lea.rm.bpixs_s8_hex", "c02.push.m.b_s1_hex", "c02.neg.m.bpd_s1_hex.dword",
+                                                          "c02.vpaddd.yym.b_s1_hex", "c02.paddd.rm.bpd_s1_hex")]
+    seeds += [s for s in c03_families(True) if s.name in ("c03.add.r.hex", "c03.mov.m_byte_b_s1_hex.hex")]
+    seeds += [s for s in c04_families(True) if s.name in ("c04.vpaddd.yyy", "c04.mulx.rrr", "c04.movq.x_r64")]
+    seeds += [s for s in c05_families(True) if s.name in ("c05.jmp.nokw.hex", "c05.call.nokw.hex")]
+    if quick:
+        seeds = [s for i, s in enumerate(seeds)]
+    for ci, ctext in enumerate(ctx):
+        cb = assemble_alone(ctext)
+        if cb is None:
+            continue
+        for s in seeds:
+            if s.accept:          # relative branches use their own acceptance code; the context prefix is handled below
+                pass
+            sk = copy.deepcopy(s)
+            sk.name = "c06.ctx%d.%s" % (ci, s.name)
+            sk.family = "context"
+            sk.extra_lines_before = ctext + "\n"
+            sk.context = (ctext, cb)
+            if sk.accept:
+                continue          # (branch skeletons decode from `start`, which the generic context code shifts; keep to the generic form)
+            out.append(sk)
+    return out
